@@ -187,6 +187,33 @@ def proof_status(pid):
 
 # ---------------------------------------------------------------- drivers
 
+_DISK_ROOT = None
+
+
+def _big_stack():
+    # the extracted model recurses over lists non-tail-recursively
+    import resource
+    try:
+        resource.setrlimit(resource.RLIMIT_STACK, (resource.RLIM_INFINITY, resource.RLIM_INFINITY))
+    except Exception:
+        try:
+            resource.setrlimit(resource.RLIMIT_STACK, (1 << 30, 1 << 30))
+        except Exception:
+            pass
+
+
+def disk_root():
+    """one scratch root per check process, outside /repo, /verif and /tmp; removed at exit"""
+    global _DISK_ROOT
+    if _DISK_ROOT is None:
+        _DISK_ROOT = tempfile.mkdtemp(prefix='verifd.', dir='/var/tmp')
+        os.makedirs(_DISK_ROOT + '/targets/dir', exist_ok=True)
+        open(_DISK_ROOT + '/targets/file', 'w').close()
+        import atexit
+        atexit.register(lambda: shutil.rmtree(_DISK_ROOT, ignore_errors=True))
+    return _DISK_ROOT
+
+
 def run_driver(binary, lines, env_extra=None, shards=NPROC, need_root=False, timeout=3000):
     """Feed the protocol lines to a driver, sharded over processes; returns the
     output lines in input order."""
@@ -203,14 +230,13 @@ def run_driver(binary, lines, env_extra=None, shards=NPROC, need_root=False, tim
         if env_extra:
             env.update(env_extra)
         if need_root:
-            r = tempfile.mkdtemp(prefix='verifd.', dir='/var/tmp')
-            roots.append(r)
-            env['VERIF_ROOT'] = r
+            env['VERIF_ROOT'] = disk_root()
         inp = ('\n'.join(ch) + '\n').encode('latin-1')
         fin = tempfile.TemporaryFile()
         fin.write(inp)
         fin.seek(0)
-        p = subprocess.Popen([binary], stdin=fin, stdout=subprocess.PIPE, stderr=subprocess.PIPE, env=env)
+        p = subprocess.Popen([binary], stdin=fin, stdout=subprocess.PIPE, stderr=subprocess.PIPE, env=env,
+                             preexec_fn=_big_stack)
         procs.append((p, fin))
     outs = []
     for p, fin in procs:
